@@ -1,7 +1,7 @@
 (* Model/Dispatch.v — executable model of SecsHandler._handle_stream_function / _handle_unknown_functions as the GEM
    handlers use it while COMMUNICATING, over the callback tables regenerated into Gen/Callbacks.v.
    Hand-modelled (tied by correspondence): the dispatch itself and that every reply is sent with message.header.system. *)
-From SG Require Import Base.Prelude Gen.Callbacks.
+From SG Require Import Base.Prelude Gen.Callbacks Gen.Catalogue.
 Open Scope Z_scope.
 
 (* how the callback finishes on a given message *)
@@ -17,6 +17,11 @@ Definition reply_eqb (a b : reply) : bool :=
 Definition lookup_cb (tab : list ((Z * Z) * list cbkind)) (s f : Z) : option (list cbkind) :=
   match find (fun e => (fst (fst e) =? s) && (snd (fst e) =? f)) tab with Some e => Some (snd e) | None => None end.
 
+(* the except branch looks the abort SxF0 up in the function catalogue; for a stream without F0 there (callbacks registered by the
+   user on streams outside the shipped catalogue) the message is answered like one without callback *)
+Definition has_abort (s : Z) : bool := existsb (fun e => (Z.of_N (f_stream e) =? s) && (f_function e =? 0)%N) catalogue.
+Definition on_raise (s : Z) (w : bool) : list reply := if has_abort s then [RAbort s] else if w then [RS9F5] else [].
+
 (* replies written for one inbound message (all with the request's system bytes) *)
 Definition dispatch (tab : list ((Z * Z) * list cbkind)) (s f : Z) (w : bool) (o : outcome) : list reply :=
   match lookup_cb tab s f with
@@ -26,8 +31,8 @@ Definition dispatch (tab : list ((Z * Z) * list cbkind)) (s f : Z) (w : bool) (o
     | OReturn (KReply s' f') => [RSec s' f']             (* result is not None: send_response, whatever the W-bit says *)
     | OReturn KNone => []
     | OReturn (KSentNone s' f') | OReturn (KSentMayRaise s' f') => [RSec s' f']
-    | ORaise => [RAbort s]
-    | OSentRaise s' f' => [RSec s' f'; RAbort s]
+    | ORaise => on_raise s w
+    | OSentRaise s' f' => RSec s' f' :: on_raise s w
     end
   end.
 
